@@ -95,26 +95,53 @@ def evaluate(case):
     nl, nr = len(pts), len(rshapes)
     lgeom = case['left_geom_name']
     rgeom = case['right_geom_name']
-    larr = model.build_array('point', pts, case['left_subtype'])
-    rarr = model.build_array(kind, rshapes, case['right_subtype'])
-    lidx = {'default': list(range(nl)), 'named': [10 + i for i in range(nl)], 'nonunique': [i % 2 for i in range(nl)],
-            'strings': [f'p{i}' for i in range(nl)]}[case['left_index']]
-    ridx = {'default': list(range(nr)), 'named': [100 + 3 * j for j in range(nr)], 'strings': [f's{j}' for j in range(nr)]}[case['right_index']]
-    lcols = collections.OrderedDict()
-    lcols['a'] = [i * 2 for i in range(nl)]
-    if case.get('clash'):
-        lcols['v'] = [f'lv{i}' for i in range(nl)]
-    lcols[lgeom] = larr
-    rcols = collections.OrderedDict()
-    rcols['b'] = [j * 5 + 1 for j in range(nr)]
-    if case.get('clash'):
-        rcols['v'] = [f'rv{j}' for j in range(nr)]
-    rcols[rgeom] = rarr
     import pandas as pd
-    li = pd.Index(lidx, name='lname' if case['left_index'] == 'named' else None)
-    ri = pd.Index(ridx, name='rname' if case['right_index'] == 'named' else None)
-    left = lib(B + ['construct-left'], lambda: sp.GeoDataFrame(dict(lcols), index=li))
-    right = lib(B + ['construct-right'], lambda: sp.GeoDataFrame(dict(rcols), index=ri))
+    # either frame may be a contiguous row slice of a longer frame (rows in front of and behind it, some of them
+    # missing): the join sees the slice only
+    lfront, lback = case.get('left_pad', [[], []])
+    rfront, rback = case.get('right_pad', [0, 0])
+    full_pts = list(lfront) + list(pts) + list(lback)
+    full_shapes = [None] * rfront + list(rshapes) + [None] * rback
+    NL, NR = len(full_pts), len(full_shapes)
+    lf, rf = len(lfront), rfront
+    larr_full = model.build_array('point', full_pts, case['left_subtype'])
+    rarr_full = model.build_array(kind, full_shapes, case['right_subtype'])
+
+    def index_of(which, n, name):
+        if which == 'default':
+            return pd.RangeIndex(n)
+        if which == 'strided':
+            return pd.RangeIndex(0, 2 * n, 2)
+        if which == 'strided3':
+            return pd.RangeIndex(1, 3 * n + 1, 3)
+        vals = {'named': [10 + 3 * i for i in range(n)], 'nonunique': [i % 2 for i in range(n)], 'strings': [f'{name[0]}{i}' for i in range(n)]}[which]
+        return pd.Index(vals, name=name if which == 'named' else None)
+    li_full = index_of(case['left_index'], NL, 'lname')
+    ri_full = index_of(case['right_index'], NR, 'rname')
+    lcols_full = collections.OrderedDict()
+    lcols_full['a'] = [i * 2 for i in range(NL)]
+    if case.get('clash'):
+        lcols_full['v'] = [f'lv{i}' for i in range(NL)]
+    lcols_full[lgeom] = larr_full
+    rcols_full = collections.OrderedDict()
+    rcols_full['b'] = [j * 5 + 1 for j in range(NR)]
+    if case.get('clash'):
+        rcols_full['v'] = [f'rv{j}' for j in range(NR)]
+    rcols_full[rgeom] = rarr_full
+    left = lib(B + ['construct-left'], lambda: sp.GeoDataFrame(dict(lcols_full), index=li_full))
+    right = lib(B + ['construct-right'], lambda: sp.GeoDataFrame(dict(rcols_full), index=ri_full))
+    if NL != nl:
+        left = lib(B + ['slice-left'], lambda: left.iloc[lf:lf + nl])
+    if NR != nr:
+        right = lib(B + ['slice-right'], lambda: right.iloc[rf:rf + nr])
+    li, ri = left.index, right.index
+    lidx, ridx = li_full.tolist()[lf:lf + nl], ri_full.tolist()[rf:rf + nr]
+    if li.tolist() != lidx or ri.tolist() != ridx or len(left) != nl or len(right) != nr:
+        raise RuntimeError('harness: sliced frames do not carry the expected labels')
+    lcols = collections.OrderedDict((c, (v if c == lgeom else v[lf:lf + nl])) for c, v in lcols_full.items())
+    rcols = collections.OrderedDict((c, (v if c == rgeom else v[rf:rf + nr])) for c, v in rcols_full.items())
+    larr = left[lgeom].array
+    rarr = right[rgeom].array
     res = lib(B + ['sjoin'], sp.sjoin, left, right, how=how, lsuffix=ls, rsuffix=rs)
     fails = []
     if type(res).__name__ != 'GeoDataFrame':
@@ -193,7 +220,11 @@ def evaluate(case):
             fails.append((B + ['rows', what], f'points={pts} shapes={rshapes} kind={kind} pairs={pairs} extra={extra} missing={missing}'))
     if len(res) and res.index.name != exp_index_name or (not len(res) and res.index.name not in (exp_index_name, None)):
         fails.append((B + ['index-name'], f'{res.index.name!r} expected {exp_index_name!r}'))
-    labels = [how, 'right:' + kind, 'lidx:' + case['left_index']]
+    labels = [how, 'right:' + kind, 'lidx:' + case['left_index'], 'ridx:' + case['right_index']]
+    if NL != nl:
+        labels.append('left-is-a-slice' + ('-after-missing' if any(p is None for p in lfront) else ''))
+    if NR != nr:
+        labels.append('right-is-a-slice')
     multi = any(sum(1 for (i, j) in pairs if i == k) >= 2 for k in range(nl))
     unmatched_l = any(all(i != k for i, _ in pairs) for k in range(nl))
     unmatched_r = any(all(j != k for _, j in pairs) for k in range(nr))
@@ -220,6 +251,12 @@ def evaluate(case):
 
 
 # ----------------------------------------------------------------------------- strategy
+def _pad(pts):
+    real = [p for p in pts if p is not None]
+    el = st.one_of(st.none(), st.sampled_from(real)) if real else st.none()
+    return st.lists(el, max_size=4)
+
+
 @st.composite
 def _case(draw):
     kind = draw(st.sampled_from(['polygon', 'polygon', 'multipolygon', 'multipolygon', 'line', 'multiline', 'ring', 'point', 'multipoint']))
@@ -288,8 +325,10 @@ def _case(draw):
     return {'right_kind': kind, 'right_shapes': shapes, 'right_subtype': rsub,
             'left_points': pts, 'left_subtype': lsub, 'how': draw(st.sampled_from(['inner', 'left', 'right'])),
             'lsuffix': suf[0], 'rsuffix': suf[1], 'clash': draw(st.booleans()),
-            'left_index': draw(st.sampled_from(['default', 'named', 'nonunique', 'strings'])),
-            'right_index': draw(st.sampled_from(['default', 'named', 'strings'])),
+            'left_index': draw(st.sampled_from(['default', 'named', 'nonunique', 'strings', 'strided', 'strided3'])),
+            'right_index': draw(st.sampled_from(['default', 'named', 'strings', 'strided'])),
+            'left_pad': draw(st.one_of(st.just([[], []]), st.tuples(_pad(pts), _pad(pts)).map(list))),
+            'right_pad': draw(st.one_of(st.just([0, 0]), st.tuples(st.integers(0, 3), st.integers(0, 2)).map(list))),
             'left_geom_name': 'geometry' if same else 'pt', 'right_geom_name': 'geometry' if same else 'g'}
 
 
